@@ -55,6 +55,9 @@ MUTANTS = [
     ("options-mutated", "ceos_alos2/xarray.py", "    root = io.open(path, **backend_options)", '    backend_options.setdefault("records_per_chunk", 1024)\n    root = io.open(path, **backend_options)', ["C10"]),
     ("tuple-tag-dropped", "ceos_alos2/sar_image/caching/encoders.py", '        return {"__type__": "tuple", "data": list(map(preprocess, data))}', "        return list(map(preprocess, data))", ["C08"]),
     ("datetime-float-offsets", "ceos_alos2/sar_image/caching/encoders.py", 'encoded = (obj - reference).astype("int64").tolist()', 'encoded = ((obj - reference) / np.timedelta64(1, units)).tolist()', ["C08"]),
+    ("decoder-wrong-fs", "ceos_alos2/sar_image/caching/decoders.py", 'if fs is None or "://" in root:', "if True:", ["C07"]),
+    ("lookup-ignores-adjacent", "ceos_alos2/sar_image/caching/__init__.py", "    if remote in mapper:", "    if False:", ["C07"]),
+    ("cache-written-unasked", "ceos_alos2/sar_image/__init__.py", "    if create_cache:\n        caching.create_cache", "    if create_cache or use_cache:\n        caching.create_cache", ["C10"]),
     ("dtype-as-string-again", "ceos_alos2/xarray.py", "self.dtype = np.dtype(array.dtype)", "self.dtype = array.dtype", ["C12"]),
 ]
 
